@@ -6,3 +6,5 @@ import PqVerif.Props.C04
 #print axioms Pq.C04.permanent_threads_independent
 #print axioms Pq.C04.wrap32_of_small
 #print axioms Pq.C04.int32_overflow_witness
+#print axioms Pq.C04.permanent_eq_permSpec
+#print axioms Pq.C04.permanent_none_of_ne
